@@ -88,6 +88,9 @@ def run(chk):
     # ------------------------------------------------------------------ R3 one reply per command
     r3 = chk.rule("C01.R3", "each call consumes exactly the reply the protocol defines for its own commands: it returns only after the last line of that reply and never asks for more (every public method, 0/1/2 keys, evaluated end to end against scripted replies)")
     reply_consumption(prog, r3, tier=chk.tier)
+    from .rules_C05 import size_thresholds
+
+    size_thresholds(prog, r3)
 
     # ------------------------------------------------------------------ R4 no bytes survive a call
     r4 = chk.rule("C01.R4", "exchange functions and readers keep receive state in locals only (no attribute or module-level writes)")
